@@ -1074,6 +1074,16 @@ where
                 continue;
             };
 
+            // An intercepted batch is answered at its Sync, without taking a server.
+            if message[0] as char == 'S' {
+                if let Some(PluginOutput::Intercept(result)) = plugin_output {
+                    self.reset_buffered_state();
+                    write_all(&mut self.write, result).await?;
+                    plugin_output = None;
+                    continue;
+                }
+            }
+
             // Check if the pool is paused and wait until it's resumed.
             pool.wait_paused().await;
 
